@@ -129,8 +129,26 @@ VALUES = [
     lambda: (frozenset(), slice(None), (None, True)), lambda: "lone \udc80 surrogate",
 ]
 SUBCLASS = [lambda: Color.RED, lambda: Mood.OK, lambda: Point(1, 2), lambda: MyStr("s"), lambda: MyInt(5), lambda: MyTuple((1, 2)), lambda: MyFset([1])]
-MUTABLE = [lambda: [1, 2], lambda: {"k": 1}, lambda: set([1]), lambda: bytearray(b"ab"), lambda: collections.deque([1])]
-OTHERS = [lambda: somefunc, lambda: Thing, lambda: struct, lambda: Thing(7), lambda: Other(3), lambda: iter([1, 2]), lambda: (lambda z: z)]
+class Falsy(object):
+    """an object that is false / empty (proxies forward truth value and length to it)"""
+
+    def __init__(self, n):
+        self.n = n
+
+    def __bool__(self):
+        return False
+
+    def __len__(self):
+        return 0
+
+    def __repr__(self):
+        return "<Falsy %d>" % self.n
+
+
+MUTABLE = [lambda: [1, 2], lambda: {"k": 1}, lambda: set([1]), lambda: bytearray(b"ab"), lambda: collections.deque([1]),
+           lambda: [], lambda: {}, lambda: set(), lambda: bytearray(), lambda: collections.deque()]
+OTHERS = [lambda: somefunc, lambda: Thing, lambda: struct, lambda: Thing(7), lambda: Other(3), lambda: iter([1, 2]), lambda: (lambda z: z),
+          lambda: Falsy(1), lambda: Falsy(2)]
 
 
 def make_pool(w, owner):
